@@ -20,6 +20,10 @@ Inductive binstr :=
 | BSetjmp                         (* if (setjmp(..)) { retval = -1; goto bailout; } *)
 | BCall                           (* libjpeg call: may longjmp to the handler                (choice point) *)
 | BRealloc (v : nat)              (* v = realloc(v, ..) with NULL test: on failure the old block stays allocated but v is overwritten (choice point) *)
+| BAcquireOut (v : nat)           (* a libjpeg call that returns a malloc'ed block through an out-parameter (jpeg_read_icc_profile(.., &v, ..)):
+                                     may longjmp (needs a handler); on success v holds a new block        (choice point) *)
+| BMove (dst src : nat)           (* dst = src; the block changes owner (src is not used afterwards) *)
+| BEscape (v : nat)               (* *out = v: the block is handed to the caller (followed by v = NULL) *)
 | BRelease (v : nat)              (* free(v) / free(v[i]) / tj3Destroy(v) / if (v) fclose(v): NULL tolerated *)
 | BReleaseIfFailed (v : nat).     (* if (retval < 0) { free(v); v = NULL; } *)
 
@@ -30,7 +34,8 @@ Record prog := {
   p_body : list instr;            (* up to the bailout label *)
   p_bail : list instr;            (* the epilogue *)
   p_escape : list nat;            (* variables returned to the caller when the call succeeds *)
-  p_owned : list nat              (* members of the instance (this->iccBuf ...): live across calls *)
+  p_owned : list nat;             (* members of the instance (this->iccBuf ...): live across calls *)
+  p_destroys : bool               (* tj3Destroy: afterwards the instance owns nothing *)
 }.
 
 Definition MAXC : nat := 10.      (* MAX_COMPONENTS *)
@@ -92,6 +97,24 @@ Definition exec_b (fail_at i : nat) (b : binstr) (s : tst) : tst * outcome :=
                   end in
         ({| vars := upd (vars s1) v i (Ptr (nextid s1)); heap := nextid s1 :: heap s1; nextid := S (nextid s1); bad := bad s1;
             failed := failed s1; handler := handler s1; cnt := S (cnt s1) |}, Cont)
+  | BAcquireOut v =>
+      if cnt s =? fail_at then (set_failed (tick (if handler s then s else add_bad s)), Jump)
+      else
+        let lost := match vars s v i with Ptr id => memn id (heap s) | _ => false end in
+        let s0 := if lost then add_bad s else s in
+        ({| vars := upd (vars s0) v i (Ptr (nextid s0)); heap := nextid s0 :: heap s0; nextid := S (nextid s0); bad := bad s0;
+            failed := failed s0; handler := handler s0; cnt := S (cnt s0) |}, Cont)
+  | BMove dst src =>
+      let lost := match vars s dst i with Ptr id => memn id (heap s) | _ => false end in
+      let s0 := if lost then add_bad s else s in
+      (set_vars s0 (upd (upd (vars s0) dst i (vars s0 src i)) src i Null), Cont)
+  | BEscape v =>
+      match vars s v i with
+      | Ptr id => ({| vars := vars s; heap := remn id (heap s); nextid := nextid s; bad := (if memn id (heap s) then bad s else S (bad s));
+                      failed := failed s; handler := handler s; cnt := cnt s |}, Cont)
+      | Null => (s, Cont)
+      | Uninit => (add_bad s, Cont)
+      end
   | BThrow => if cnt s =? fail_at then (set_failed (tick s), Jump) else (tick s, Cont)
   | BSetjmp => ({| vars := vars s; heap := heap s; nextid := nextid s; bad := bad s; failed := failed s; handler := true; cnt := cnt s |}, Cont)
   | BCall => if cnt s =? fail_at then (set_failed (tick (if handler s then s else add_bad s)), Jump) else (tick s, Cont)
@@ -149,10 +172,18 @@ Definition held (s : tst) (vs : list nat) (id : nat) : bool :=
 
 Definition safe_b (p : prog) (s : tst) : bool :=
   (bad s =? 0) &&
-  forallb (fun id => held s (p_owned p) id || (negb (failed s) && held s (p_escape p) id)) (heap s).
+  forallb (fun id => (negb (p_destroys p) && held s (p_owned p) id) || (negb (failed s) && held s (p_escape p) id)) (heap s).
 
 Definition check (p : prog) : bool :=
   forallb (fun own0 => forallb (fun nc => forallb (fun k => safe_b p (trun p own0 nc k)) (seq 0 201)) (seq 0 (S MAXC))) [false; true].
 
 (* number of acquisitions executed by a failure-free call *)
 Definition acq_count (p : prog) (nc : nat) : nat := nextid (trun p false nc 5000).
+
+(* classes of the calls that occur inside a `bailout:` epilogue (generated list: gen/GenTjAlloc.v tj_epilogue_calls) *)
+Inductive ecall :=
+| ERelease        (* free / tj3Free / fclose: no allocation, cannot raise a libjpeg error *)
+| EAbortLike      (* jpeg_abort_* / jpeg_destroy_* / tj3Destroy: only free_pool / self_destruct underneath *)
+| ETerm           (* the term_destination method of the memory destination: two assignments in jdatadst-tj.c *)
+| EOther.         (* anything else: not accepted *)
+Definition ecall_ok (c : ecall) : bool := match c with EOther => false | _ => true end.
